@@ -445,6 +445,7 @@ impl<'s, const M: usize> Exec<'s, M> {
             None => (0, 0),
         };
         self.fp.mix(crate::rng::fnv(self.cur_kind) ^ out as u64);
+        self.fp.mix((ab as u64) ^ ((cc as u64) << 24) ^ self.op_place.map(|p| ((p.0 as u64) << 48) ^ ((p.1 as u64) << 8)).unwrap_or(1));
         self.trace.push(TraceItem {
             kind: self.cur_kind,
             out,
